@@ -715,8 +715,8 @@ func vC19Counts(m *dns.Msg) (string, bool) {
 	return "[" + strings.Join(s, "; ") + "]", any
 }
 
-// the witnesses of Properties.no_ecs_to_client_refuted and badvers_reply_reflects_ecs_refuted,
-// replayed on the real code on every run
+// regressions for the former findings multi-opt-response-ecs and badvers-ecs-reflected (fixed by
+// fb9758c), replayed on the real code on every run
 func vC19EdnsReplays(tr *vC19Trace) {
 	// (1) downstream response with two OPT records, the first carrying a subnet option
 	{
@@ -754,16 +754,16 @@ func vC19EdnsReplays(tr *vC19Trace) {
 				continue
 			}
 			counts, leaked := vC19Counts(w.msg)
-			goFail, fkey := "", ""
+			goFail := ""
 			if leaked {
-				goFail, fkey = "client reply carries a subnet option", "multi-opt-response-ecs"
+				goFail = "client reply carries a subnet option"
 			}
 			var rdesc []string
 			for _, rr := range w.msg.Extra {
 				rdesc = append(rdesc, rr.String())
 			}
 			tr.emit(map[string]any{"k": "replay-two-opt-reply", "coq": fmt.Sprintf("CaseEdnsReply false %s [[OEcs (mk_ecs 1 24 24 (mk_ipb 4 3405803776))]; []] %s", vC19Bool(w.msg.Truncated), counts),
-				"go_fail": goFail, "fkey": fkey, "nontrivial": true, "desc": map[string]any{"reply_extra": rdesc, "truncated": w.msg.Truncated}})
+				"go_fail": goFail, "nontrivial": true, "desc": map[string]any{"reply_extra": rdesc, "truncated": w.msg.Truncated}})
 		}
 	}
 	// (2) EDNS version 1 with a subnet option, forwarding enabled for everyone
@@ -787,16 +787,16 @@ func vC19EdnsReplays(tr *vC19Trace) {
 		ch.Next(context.Background())
 		if w.msg != nil {
 			counts, leaked := vC19Counts(w.msg)
-			goFail, fkey := "", ""
+			goFail := ""
 			if leaked {
-				goFail, fkey = "BADVERS reply carries a subnet option", "badvers-ecs-reflected"
+				goFail = "BADVERS reply carries a subnet option"
 			}
 			var rdesc []string
 			for _, rr := range w.msg.Extra {
 				rdesc = append(rdesc, rr.String())
 			}
 			tr.emit(map[string]any{"k": "replay-badvers-reply", "coq": fmt.Sprintf("CaseEdnsBadvers %s %s %s %s", b.coq(), vC19Bytes(remote), extraIn, counts),
-				"go_fail": goFail, "fkey": fkey, "nontrivial": true, "desc": map[string]any{"rcode": w.msg.Rcode, "reply_extra": rdesc}})
+				"go_fail": goFail, "nontrivial": true, "desc": map[string]any{"rcode": w.msg.Rcode, "reply_extra": rdesc}})
 		}
 	}
 }
@@ -954,10 +954,7 @@ func TestVerifC19Edns(t *testing.T) {
 			if anyECS && !marker && goFail == "" {
 				goFail = "client sent a subnet option but the request tree is not marked"
 			}
-			fkey := ""
-			if goFail != "" && nopt >= 2 && leftovers {
-				fkey = "multi-opt-request-unstripped"
-			}
+			_, _ = nopt, leftovers
 			fw := strings.Contains(seenCoq, "OEcs")
 			k := "edns-req-" + path
 			if fw {
@@ -970,17 +967,17 @@ func TestVerifC19Edns(t *testing.T) {
 				sdesc = append(sdesc, rr.String())
 			}
 			tr.emit(map[string]any{"k": k, "coq": fmt.Sprintf("CaseEdnsReq %s %s %s %s (Some %s)", b.coq(), remoteCoq, extraIn, vC19Bool(marker), seenCoq),
-				"go_fail": goFail, "fkey": fkey, "nontrivial": anyECS,
+				"go_fail": goFail, "nontrivial": anyECS,
 				"desc": map[string]any{"ecs_cfg": fmt.Sprintf("%+v", b), "remote": remote.String(), "path": path, "query_extra": qdesc, "upstream_extra": sdesc, "marker": marker}})
 			if w.msg != nil {
 				counts, leaked := vC19Counts(w.msg)
 				trunc := w.msg.Truncated
-				goFail2, fkey2 := "", ""
+				goFail2 := ""
 				if leaked {
 					goFail2 = "client reply carries a subnet option"
-					if strings.Count(respCoq, "[") > 2 { // more than one OPT in the downstream response
-						fkey2 = "multi-opt-response-ecs"
-					}
+				}
+				if strings.Count(counts, "N") > 1 {
+					goFail2 = "client reply carries more than one OPT record"
 				}
 				var rdesc []string
 				for _, rr := range w.msg.Extra {
@@ -993,7 +990,7 @@ func TestVerifC19Edns(t *testing.T) {
 					k2 = "edns-reply-truncated"
 				}
 				tr.emit(map[string]any{"k": k2, "coq": fmt.Sprintf("CaseEdnsReply %s %s %s %s", vC19Bool(noedns), vC19Bool(trunc), respCoq, counts),
-					"go_fail": goFail2, "fkey": fkey2, "nontrivial": strings.Contains(respCoq, "OEcs") || fw,
+					"go_fail": goFail2, "nontrivial": strings.Contains(respCoq, "OEcs") || fw,
 					"desc": map[string]any{"proto": proto, "downstream_opts": respDesc, "reply_extra": rdesc, "truncated": trunc}})
 			}
 		} else if w.msg != nil && reqOPT != nil {
@@ -1001,16 +998,16 @@ func TestVerifC19Edns(t *testing.T) {
 			tr.emit(map[string]any{"k": "edns-req-" + path + "-badvers", "coq": fmt.Sprintf("CaseEdnsReq %s %s %s false None", b.coq(), remoteCoq, extraIn),
 				"go_fail": "", "nontrivial": true, "desc": map[string]any{"rcode": w.msg.Rcode}})
 			counts, leaked := vC19Counts(w.msg)
-			goFail, fkey := "", ""
+			goFail := ""
 			if leaked {
-				goFail, fkey = "BADVERS reply carries a subnet option", "badvers-ecs-reflected"
+				goFail = "BADVERS reply carries a subnet option"
 			}
 			var rdesc []string
 			for _, rr := range w.msg.Extra {
 				rdesc = append(rdesc, rr.String())
 			}
 			tr.emit(map[string]any{"k": "edns-badvers-reply", "coq": fmt.Sprintf("CaseEdnsBadvers %s %s %s %s", b.coq(), remoteCoq, extraIn, counts),
-				"go_fail": goFail, "fkey": fkey, "nontrivial": anyECS,
+				"go_fail": goFail, "nontrivial": anyECS,
 				"desc": map[string]any{"ecs_cfg": fmt.Sprintf("%+v", b), "remote": remote.String(), "query_extra": qdesc, "reply_extra": rdesc, "rcode": w.msg.Rcode}})
 		}
 	}
